@@ -326,7 +326,7 @@ func (w *c01worker) single(s0 ref.State, base *mem.Image, stale bool, g *vf.Rng,
 	mr := base.Clone()
 	sr := s0
 	inf := ref.Step(&sr, mem.RefMem{M: mr})
-	if hazard(mr, inf) {
+	if hazard(mr, inf, s0) {
 		w.extra["skipped_hazard"]++
 		return inf, false, true
 	}
@@ -384,7 +384,7 @@ func (w *c01worker) runProgram(s0 ref.State, base *mem.Image, stale bool, g *vf.
 		mp.ResetStep()
 		ma.ResetStep()
 		inf := ref.Step(&sr, mem.RefMem{M: mr})
-		if hazard(mr, inf) {
+		if hazard(mr, inf, pre) {
 			w.extra["skipped_hazard"]++
 			return steps, "hazard"
 		}
